@@ -270,6 +270,23 @@ def rule_r3(rep, repo, classes):
                                 for i_, y in enumerate(hb):
                                     if isinstance(y, ast.If) and _rejects_unequal(y, amap[new_s], amap[old_s], rest=hb[i_ + 1:]):
                                         guard = True
+                            else:
+                                # the arrays themselves are handed over (`self._check_same_shape("points", value, self._points)`):
+                                # the helper's test is read with its parameters replaced by the arguments
+                                import copy
+                                bind = {p_: a_ for a_, p_ in zip(x.value.args, hp)}
+                                bind.update({k_.arg: k_.value for k_ in x.value.keywords if k_.arg})
+
+                                class Subst(ast.NodeTransformer):
+                                    def visit_Name(self, n):
+                                        return copy.deepcopy(bind[n.id]) if n.id in bind else n
+                                hb = strip_docstring(h.node.body)
+                                for i_, y in enumerate(hb):
+                                    if isinstance(y, ast.If):
+                                        y2 = copy.deepcopy(y)
+                                        y2.test = ast.fix_missing_locations(Subst().visit(y2.test))
+                                        if _rejects_unequal(y2, new_s, old_s, rest=hb[i_ + 1:]):
+                                            guard = True
                 if guard:
                     rep.ok("R3b.setter-keeps-shape", f"{sf.qual}:{w}", repo.rel(sf.module, st),
                            "re-assignment rejected unless the shape is unchanged")
